@@ -1,9 +1,11 @@
 package store
 
 import (
+	"cmp"
 	"context"
 	"errors"
 	"fmt"
+	"slices"
 	"sync"
 	"sync/atomic"
 	"time"
@@ -466,6 +468,10 @@ func (s *Store[H]) flushLoop(ctx context.Context) {
 
 		startTime := time.Now()
 		toFlush := s.pending.GetAll()
+		// a whole-store deletion may have dropped the pointers while these headers were pending:
+		// re-initialize from what is about to be written, flush relies on both pointers being set
+		slices.SortFunc(toFlush, func(a, b H) int { return cmp.Compare(a.Height(), b.Height()) })
+		s.ensureInit(toFlush)
 
 		for i := 0; ; i++ {
 			err := s.flush(ctx, toFlush...)
